@@ -58,6 +58,39 @@ def _entry_attr(e, var, attr):
     return isinstance(e, ast.Attribute) and e.attr == attr and isinstance(e.value, ast.Name) and e.value.id == var
 
 
+def _path_requeues(stmts, lits) -> bool:
+    """does the path through `stmts` selected by the literals (as produced by block_paths, in order) execute a queue insertion?"""
+    from ..q import literal, subst_env
+
+    want = list(lits)
+
+    def walk(block, env, idx):
+        for st in block:
+            if isinstance(st, ast.Assign) and len(st.targets) == 1 and isinstance(st.targets[0], ast.Name):
+                env = dict(env)
+                env[st.targets[0].id] = subst_env(st.value, env)
+            elif isinstance(st, ast.AnnAssign) and isinstance(st.target, ast.Name) and st.value is not None:
+                env = dict(env)
+                env[st.target.id] = subst_env(st.value, env)
+            if isinstance(st, ast.If):
+                if idx >= len(want):
+                    return None, env, idx
+                lt = literal(subst_env(st.test, env), True)
+                take_true = (lt == want[idx])
+                r, env, idx = walk(st.body if take_true else st.orelse, env, idx + 1)
+                if r:
+                    return True, env, idx
+                continue
+            for x in ast.walk(st):
+                if isinstance(x, ast.Call) and (dotted(x.func) or "").split(".")[-1] in ("appendleft", "append", "insert", "extendleft", "extend") and "_message_queue" in (dotted(x.func) or ""):
+                    return True, env, idx
+            if isinstance(st, (ast.Return, ast.Raise)):
+                return False, env, idx
+        return False, env, idx
+
+    return bool(walk(stmts, {}, 0)[0])
+
+
 # ------------------------------------------------------------------------------------------ R1, R3
 def r1_r3(ctx):
     R1, R3 = "C02.R1", "C02.R3"
@@ -118,6 +151,37 @@ def r1_r3(ctx):
             if drain.cfg.dominates(h.id, n.id):
                 aw = [a_ for a_ in drain.awaits_between(h, n) if a_.id != n.id]
                 ctx.check(not aw, R3, "_drain_message_queue:requeue-before-the-handler-suspends", m, call, "nothing is awaited in the OSError handler before the failed entry is back at the head of the queue", f"`{norm_text(aw[0].ast)[:70]}` (line {aw[0].lineno}) is awaited first: a send accepted meanwhile is not counted against the held entry and goes out ahead of it" if aw else "")
+    # ... and the converse: a failed entry with budget left is given up only because the socket was closed (`not self.is_open`).
+    # Any other condition on the way to the re-queue (connection state, queue length, message kind) loses an idempotent command
+    # on a single transient fault, e.g. when another task has already torn the connection down when the error surfaces.
+    from ..q import block_paths
+
+    for h in oserr:
+        hbody = h.ast.body if isinstance(h.ast, ast.ExceptHandler) else None
+        if hbody is None:
+            continue
+        try:
+            paths = block_paths(hbody)
+        except AnalysisError:
+            paths = None
+        if paths is None:
+            continue
+        bad_path = None
+        for lits, env, end in paths:
+            # does this path contain the re-queue?  decided on the statements guarded by exactly these literals
+            has = _path_requeues(hbody, lits)
+            if has:
+                continue
+            gave_up_ok = False
+            for t, pol in lits:
+                if "retries_remaining" in t and ((pol and ("== 0" in t or "0 ==" in t or "<= 0" in t or "< 1" in t)) or (not pol and ("> 0" in t or "!= 0" in t or ">= 1" in t or t.strip().endswith("retries_remaining")))):
+                    gave_up_ok = True
+                if t.replace(" ", "") in ("self.is_open",) and not pol:
+                    gave_up_ok = True
+            if not gave_up_ok and end in ("fall", "return"):
+                bad_path = "; ".join(f"{'' if pol else 'not '}({t})" for t, pol in lits) or "unconditionally"
+                break
+        ctx.check(bad_path is None, R1, "_drain_message_queue:requeue-whenever-budget-and-open", m, h.ast, "every way through the OSError handler that does not re-queue the failed entry passes `retries_remaining == 0` or `not self.is_open`", f"the entry is given up when {bad_path}" if bad_path else "")
     swh = sock_fn(ctx, "send_with_header")
     for n, call in swh.calls("_MessageQueueEntry"):
         v = next((k.value for k in call.keywords if k.arg == "retries_remaining"), call.args[2] if len(call.args) > 2 else None)
